@@ -103,8 +103,11 @@ int c08_maxbits(int id)
   return 63;
 }
 static bool c08_uses_sqrt(int id) { return !strcmp(g_sigs[id].flags, "CESQ"); }
+// entries whose owning property (C06, C18) defines them on the NaN sentinels as well
+static bool c08_nan_ok(int id) { return id == E_eq || id == E_ne || id == E_lt || id == E_le || id == E_gt || id == E_ge || id == E_isnan || id == E_neg || id == E_abs || id == E_band; }
 bool c08_arg_ok(int id, size_t i, const std::string& tok, int64_t v)
 {
+  if (tok == "x" && c08_nan_ok(id)) return v != INT64_MIN;
   if (tok == "x") { if (!m_finite128(v)) return false; int mb = c08_maxbits(id); if (mb < 63 && iabs128(v) >= ((i128)1 << mb)) return false; return true; }
   if (tok == "deg") return v >= INT32_MIN && v <= INT32_MAX;
   const char* n = g_sigs[id].name;
@@ -147,6 +150,7 @@ Args c08_decode(Ctx&, Dec& d)
   bool degfn = (!strncmp(n, "sina_", 5) || !strncmp(n, "cosa_", 5) || !strncmp(n, "tana_", 5));
   for (size_t i = 0; i < sig.size() && i < 3; ++i) {
     const std::string& t = sig[i];
+    if (t == "x" && c08_nan_ok(id)) { a[1 + i] = dec_rawnan(d, 5); continue; }
     if (t == "x") { int64_t v = dec_raw(d, mb); if (!strncmp(n, "sqrt", 4) && (d.u64() % 8)) v = v < 0 ? -v : v; a[1 + i] = v; }
     else if (degfn && i == 0) { int64_t deg = (int64_t)(d.u64() % 2001) - 1000; uint64_t u = d.u64(); if (u % 4 == 0) deg = (int64_t)(u >> 8) % 1048576;
       if (t == "f32") a[1 + i] = (int64_t)f32_bits((float)deg + ((u >> 40) % 4 == 0 ? 0.5f : 0.0f));
@@ -165,5 +169,5 @@ static void c08_consts_check(Ctx& ctx, const Args& a)
 static SweepInfo c08_consts_sweep(Ctx& ctx, const Clause& cl) { SweepInfo si; si.exhaustive = true; si.note = "the exported library constants"; if (ctx.worker == 0) for (int i = 0; i < E_k_sqrt_ce; ++i) ctx.evaluate(cl, { entry_key(i) }); return si; }
 static Reg r_c08c({ "C08.consts", "C08", "sweep", "the library constants the oracles read (phi, pi/2, pi/4, 2pi, max, lowest, NaN, one, fixtorad_r) are identical on every build configuration", c08_consts_check, 0, nullptr, c08_consts_sweep });
 static Reg r_c08({ "C08.diff", "C08", "rc",
-  "(entry point, arguments) over the whole inventory, arguments restricted to the domain on which the owning property defines the function (finite operands; |x| < 2^46 for sin/cos, < 2^62 for tan, < 2^47 for atan/atan2/hypot/sqrt; degrees within +-2^20); oracle (differential): the result is bit-identical on every loaded build configuration (GCC and Clang, -O0..-O3, c++17/c++20/c++2b) - functions that reach sqrt() are compared within the group that selects the same algorithm - and |sqrt_abacus(x) - sqrt_std_math(x)| <= 1 ulp; non-trivial = an argument with |raw| >= 2^30, a NaN result, an integer in {0,+-1} or >= 2^31, a negative/large shift count, out-of-range floats",
+  "(entry point, arguments) over the whole inventory, arguments restricted to the domain on which the owning property defines the function (finite operands - plus the NaN sentinels for comparisons, isnan, negation, abs and &; |x| < 2^46 for sin/cos, < 2^62 for tan, < 2^47 for atan/atan2/hypot/sqrt; degrees within +-2^20); oracle (differential): the result is bit-identical on every loaded build configuration (GCC and Clang, -O0..-O3, c++17/c++20/c++2b) - functions that reach sqrt() are compared within the group that selects the same algorithm - and |sqrt_abacus(x) - sqrt_std_math(x)| <= 1 ulp; non-trivial = an argument with |raw| >= 2^30, a NaN result, an integer in {0,+-1} or >= 2^31, a negative/large shift count, out-of-range floats",
   c08_check, 24, c08_decode, nullptr });
